@@ -102,7 +102,7 @@ func props() map[string]Prop {
 			Assume: []string{"start times are passed explicitly (virtual calendar 2019-2031)"},
 		},
 		{
-			ID: "C08", Level: "exploration",
+			ID: "C08", Level: "fault_enumeration",
 			Units: []Unit{
 				{Name: "conc", Pkg: "internal/upload", Harness: "internal_upload", Run: "^TestVerifUploadConc$", Instrument: uploadInstr, Timeout: 40 * time.Minute},
 			},
@@ -151,6 +151,13 @@ func props() map[string]Prop {
 				{Name: "generate", Pkg: "internal/configgen", Harness: "internal_configgen", Run: "^TestVerifC17Gen$", Timeout: 30 * time.Minute},
 			},
 			Assume: []string{"proxy answers are replaced through the package's versionsForTesting variable", "padVersions inputs are duplicate-free canonical semver lists, as a module proxy returns", "values cannot contain '#', braces outside counter fields, or leading/trailing blanks (documented syntax)"},
+		},
+		{
+			ID: "C14", Level: "exploration",
+			Units: []Unit{
+				{Name: "names", Pkg: "internal/crashmonitor", Harness: "internal_crashmonitor", Run: "^TestVerifC14$", Instrument: []string{"internal/crashmonitor"}, Timeout: 30 * time.Minute},
+			},
+			Assume: []string{"crasher and namer are the same executable (as with the real sidecar), built without PIE", "metamorphic variants keep: the first sentinel line, the PC list of the first running goroutine, and which frames follow a frame whose symbol is exactly runtime.sigpanic"},
 		},
 	}
 	m := map[string]Prop{}
